@@ -192,6 +192,25 @@ func c03Run(c *ev.Ctx) {
 	}
 	kinds := map[string]int{}
 	ancestorLink, capEdge := false, false
+	// one history in sixteen starts with a chain of 40-140 nested groups (a dataset every
+	// seventh level, and at the end a hard link from the root to the deepest group): depth is
+	// unbounded in the format, and readers recurse along it
+	var forced []hx.Op
+	if r.Chance(1, 16) && !fill {
+		depth := r.Range(40, 140)
+		p := ""
+		for d := 1; d <= depth; d++ {
+			p += fmt.Sprintf("/c%d", d)
+			forced = append(forced, hx.Op{K: "group", Path: p})
+			if d%7 == 0 {
+				v := hx.GenNumeric(r, "[]i32", 2, 2)
+				forced = append(forced, hx.Op{K: "create_ds", Path: p + "/leaf", DT: "i32", Dims: []uint64{2}, Data: &v})
+			}
+		}
+		forced = append(forced, hx.Op{K: "hardlink", Path: "/deepest", Target: p})
+		nops += len(forced)
+		c.Count("histories_with_deep_chain", 1)
+	}
 	for i := 0; i < nops; i++ {
 		valid := !r.Chance(1, 5)
 		var op hx.Op
@@ -202,7 +221,21 @@ func c03Run(c *ev.Ctx) {
 		}
 		expect := "ok"
 		nearFullCreate := false
+		if len(forced) > 0 {
+			k = 99
+		}
 		switch k {
+		case 99:
+			op, forced = forced[0], forced[1:]
+			valid = true
+			switch op.K {
+			case "group":
+				node = &c03Node{Kind: "group"}
+			case "create_ds":
+				node = &c03Node{Kind: "dataset"}
+			default:
+				node = &c03Node{Kind: "group", Target: op.Target}
+			}
 		case 0:
 			op = hx.Op{K: "group", Path: g.newPath(valid)}
 			node = &c03Node{Kind: "group"}
@@ -487,7 +520,7 @@ func c03Run(c *ev.Ctx) {
 var C03 = &ev.Property{
 	ID:    "C03",
 	Level: "exploration",
-	Rule: "each case is a seeded sequence of 1-80 creations (CreateGroup, small CreateDataset, CreateHardLink to datasets/groups/ancestors, CreateSoftLink, CreateExternalLink, CreateDenseGroup with links) over a pool of 3-40 names (short, long enough to fill the 256-byte name heap, UTF-8), depth up to 6, one fifth of the requests deliberately invalid (existing name, missing parent, relative/empty path, a path through a \"..\" or \".\" component that is no member, missing link target), one fifth of the histories filling one group towards its 32-entry capacity; a tree model decides for every request whether it must succeed, must fail, or sits at a documented capacity limit; after Close and reopen the walked tree (paths, kinds, no duplicate names, hard-linked datasets at the same address) is compared with the model expanded through hard links. " +
+	Rule: "each case is a seeded sequence of 1-80 creations (CreateGroup, small CreateDataset, CreateHardLink to datasets/groups/ancestors, CreateSoftLink, CreateExternalLink, CreateDenseGroup with links) over a pool of 3-40 names (short, long enough to fill the 256-byte name heap, UTF-8), depth up to 6 (one history in sixteen starts with a chain of 40-140 nested groups), one fifth of the requests deliberately invalid (existing name, missing parent, relative/empty path, a path through a \"..\" or \".\" component that is no member, missing link target), one fifth of the histories filling one group towards its 32-entry capacity; a tree model decides for every request whether it must succeed, must fail, or sits at a documented capacity limit; after Close and reopen the walked tree (paths, kinds, no duplicate names, hard-linked datasets at the same address) is compared with the model expanded through hard links. " +
 		"non-trivial: >=2 operations; distinct = (superblock, ops/10, nodes/5, op kinds used, ancestor link, capacity edge, fill).",
 	Assumptions: []string{
 		"documented capacity limits (32 entries, 256-byte name heap) make a refusal legitimate ('either'); below 24 entries and with heap room a valid creation must succeed",
